@@ -29,6 +29,11 @@ except Exception:  # pragma: no cover
     _np = None
 
 
+# every XCHECK-th discharged obligation is re-decided by two independent solver binaries (SymPath._xcheck)
+XCHECK = int(os.environ.get("VERIF_XCHECK", "0") or 0)
+XCHECK_S = int(os.environ.get("VERIF_XCHECK_S", "5") or 5)
+_XN = 0
+
 # --------------------------------------------------------------------------- errors
 _COMM = None
 
@@ -712,6 +717,7 @@ class SymPath(_PathBase):
                 self.pending.append(self.decisions + [("b", False, tag)])
             elif t or f:
                 d = bool(t)
+                self._xcheck(z3.Not(cond) if t else cond)     # the pruned side is a deciding `unsat` too
             else:
                 raise Abort("path condition unsatisfiable")
             self.last_model = mt if d else mf
@@ -771,6 +777,8 @@ class SymPath(_PathBase):
                 taken = True
                 if other:
                     self.pending.append(self.decisions + [("i", v, False)])
+                else:
+                    self._xcheck(t != v)
             self.decisions.append(("i", v, taken))
             self.stats["decisions"] += 1
             if taken:
@@ -857,10 +865,61 @@ class SymPath(_PathBase):
             return True
         sat, m = self._check(z3.Not(c), "prove_q")
         if not sat:
+            self._xcheck(z3.Not(c))
             self._count(label, 0)
             return True
         self._fail(label, m, detail)
         return False
+
+    def _xcheck(self, negated):
+        """second opinion on a deciding `unsat`: every XCHECK-th discharged obligation is written out as SMT-LIB2
+        (path condition + negated obligation) and put to the z3 4.8.12 and cvc5 1.0.3 binaries, which share no code
+        with the z3 5.1 library that decided it.  `sat` from either is a disagreement (harness error, exit 2, query
+        kept for inspection); unknown / timeout / parse errors are counted, not believed."""
+        global _XN
+        if not XCHECK:
+            return
+        _XN += 1
+        if _XN % XCHECK:
+            return
+        import subprocess
+        import tempfile
+        s2 = z3.Solver()
+        s2.add(self.solver.assertions())
+        s2.add(negated)
+        text = s2.to_smt2()
+        fd, path = tempfile.mkstemp(suffix=".smt2", prefix="vsym_x_")
+        with os.fdopen(fd, "w") as f:
+            f.write(text)
+        self.stats["xcheck_queries"] = self.stats.get("xcheck_queries", 0) + 1
+        keep = False
+        t0 = time.time()
+        try:
+            for name, cmd in (("z3_4_8_12", ["/usr/bin/z3", "-T:%d" % XCHECK_S, path]),
+                              ("cvc5_1_0_3", ["/usr/bin/cvc5", "--tlimit=%d" % (XCHECK_S * 1000), path])):
+                try:
+                    out = subprocess.run(cmd, capture_output=True, text=True, timeout=XCHECK_S + 5).stdout
+                except (OSError, subprocess.TimeoutExpired):
+                    out = "timeout"
+                lines = [l.strip() for l in out.splitlines() if l.strip()]
+                if any(l.startswith("(error") for l in lines):
+                    verdict = "error"
+                elif "unsat" in lines:
+                    verdict = "unsat"
+                elif "sat" in lines:
+                    verdict = "sat"
+                else:
+                    verdict = "unknown"
+                k = "xcheck_%s_%s" % (name, verdict)
+                self.stats[k] = self.stats.get(k, 0) + 1
+                if verdict == "sat":
+                    keep = True
+                    raise HarnessError("solver disagreement: z3 %s says unsat, %s says sat; query kept at %s"
+                                       % (z3.get_version_string(), name, path))
+        finally:
+            self.stats["xcheck_s"] = self.stats.get("xcheck_s", 0.0) + time.time() - t0
+            if not keep:
+                os.unlink(path)
 
     def fail(self, label, **detail):
         """unconditional failure on this path (e.g. unexpected exception)"""
